@@ -21,6 +21,8 @@ import EdzedProofs.CronTie
 import EdzedModel.Gen.TranslatedCronCfg
 import EdzedProofs.CronCfgTie
 import EdzedProofs.IntervalTie
+import EdzedProofs.CronTiming
+import EdzedProofs.CronTimingDemo
 
 namespace Edzed.Cron
 
@@ -1075,5 +1077,237 @@ theorem translated_cron_time_endpoints_are_translated_range_endpoints (tzAware :
     simp only [Interval.rangeEndpoints, List.mem_flatMap, List.mem_cons, List.not_mem_nil, or_false] at this
     obtain ⟨r, hr, h⟩ := this
     exact ⟨_, ⟨r, hr, rfl⟩, by rcases h with h | h <;> simp [h]⟩
+
+end Edzed.TrTie
+
+/-! ## The TIMING of the translated loop (EdzedProofs/CronTiming.lean)
+
+`mtStep` (one pass of `while True:` of `Cron._maintask`, regenerated from the source) run in an environment model
+`TimedEnv`: wall clock read through `dtnow()` (monotone, a read costs at most `L`), the four ways of sleeping
+(each returns no earlier than requested and at most `W` later), a group of recalculations costs at most `C`,
+declared forward jumps of the clock (at most `J` per primitive step; `J = 0`: none).  All times are rationals
+in seconds; the float arithmetic of the code is treated as exact (the convention of the tie).
+`wp E M Φ r`: `Φ` holds at the end of the pass `r` for EVERY behaviour of the environment, no exception is
+raised, and every awaited sleep is positive and at most `M`. -/
+
+namespace Edzed.TrTie
+open Edzed.Cron Edzed.Gen.TrCron
+
+section timing
+variable {σ T DT B : Type} {P : MtPrims σ T DT B}
+
+/-- **the ±12 h normalisation is right**: for an instant `A` whose time of day is `a` and a reading less than
+    12 h away from it the `sleeptime` computed by the loop is exactly `A − reading` (negative: late) -/
+theorem translated_cron_timing_sleeptime_is_distance (E : TimedEnv P) (a : T) (x : DT) (A : Rat) (k : Int)
+    (hA : A = (k : Rat) * secPerDay + todS P a)
+    (h1 : -(secPerDay / 2) < A - E.abs x) (h2 : A - E.abs x < secPerDay / 2) :
+    secondsUntil P a (P.timeOf x) = A - E.abs x := secondsUntil_eq E a x A k hA h1 h2
+
+/-- **one pass with a known index serves its alarm**: the loop is positioned at entry `i` (time of day `a`) and
+    heading for the instant `A`; the latest reading is at most `G` before `A`, the clock at most `lat` after it.
+    Then for every behaviour of the environment the pass ends as `PassOutcome` says: SERVED with a reading in
+    `[A, A + _TT_ERROR]` that is at most `max (lat + L) (2L + W)` (+ the jumps declared during the pass) after
+    `A`, recalculating exactly the blocks registered for `a` after the sleep, index + 1; or RELOAD (queue item);
+    or RESET – only with a reading more than `_TT_ERROR` past `A` – recalculating every client.  No awaited sleep
+    is longer than `G` (the distance to the alarm): the loop cannot stall. -/
+theorem translated_cron_timing_pass_serves_alarm (E : TimedEnv P) (tt : List T) (n i : Nat) (a : T)
+    (A G lat UP : Rat) (L : MtLocals T DT) (w : σ)
+    (K : KnownSt E tt n i a A G lat L w)
+    (kA : Int) (hA : A = (kA : Rat) * secPerDay + todS P a) (hG : G < secPerDay / 2)
+    (hU0 : A + lat + E.L ≤ UP) (hU2 : A + 2 * E.L + E.W ≤ UP)
+    (hwin : UP + 7 * E.J < A + secPerDay / 2) :
+    wp E G (PassOutcome E tt n i a A G (E.off w) UP 7) (mtStep P L w) :=
+  pass_known E G tt n i a A G lat UP L w (le_refl _) K kA hA hG hU0 hU2 hwin
+
+/-- **a pass with an unknown index** (start, after a reload, after a reset): one reading `r`; the pass heads for
+    the FIRST instant `A ≥ r` whose time of day is in the timetable (`A ≤ r + G`), all clients are recalculated
+    with `r`, then as above with the bound `2L + W + C` -/
+theorem translated_cron_timing_resync_pass (E : TimedEnv P) (tt : List T) (n : Nat) (g G : Rat)
+    (L : MtLocals T DT) (w : σ) (h1 : L.v1 = false) (h2 : L.v2 = false) (h6 : L.v6 = none)
+    (h4 : L.v4 = tt) (h5 : L.v5 = n) (hlen : tt.length = n) (hov : ttOk ≤ L.v0)
+    (ok : TTok P tt g G) (hG : G < secPerDay / 2)
+    (hwin : 2 * E.L + E.W + E.C + 8 * E.J < secPerDay / 2) :
+    ∃ idx a A, ∃ kA : Int, idx < n ∧ tt[idx]? = some a ∧ A = (kA : Rat) * secPerDay + todS P a ∧
+      E.abs (P.dtnow w).1 ≤ A ∧ A ≤ E.abs (P.dtnow w).1 + G ∧
+      wp E G (PassOutcome E tt n idx a A G (E.off w) (A + 2 * E.L + E.W + E.C) 8) (mtStep P L w) :=
+  pass_resync E G tt n g G L w (le_refl _) h1 h2 h6 h4 h5 hlen hov ok (ok.bis _) hG hwin
+
+/-- a pending reload is a pass with an unknown index on the timetable rebuilt from `_SET24` and the CURRENT keys -/
+theorem translated_cron_timing_reload_pass (L : MtLocals T DT) (w : σ) (h : L.v2 = true) :
+    mtStep P L w = mtStep P ({ L with v2 := false, v4 := P.sortedUnion P.set24 (P.alarmKeys w), v5 := (P.sortedUnion P.set24 (P.alarmKeys w)).length, v6 := none } : MtLocals T DT) w :=
+  head_reload L w h
+
+/-- **no alarm is skipped between two consecutive passes**: after a SERVED pass the loop is positioned at the next
+    entry of the timetable and heads for `A + nextGap` – the first instant after `A` whose time of day is in the
+    timetable – with the invariant of `…_pass_serves_alarm` re-established -/
+theorem translated_cron_timing_no_alarm_skipped (E : TimedEnv P) (tt : List T) (n i : Nat) (a : T)
+    (A G g off0 UP m : Rat) (L' : MtLocals T DT) (w' : σ) (hlen : tt.length = n) (hi : i < n)
+    (hget : tt[i]? = some a) (ok : TTok P tt g G) (kA : Int) (hA : A = (kA : Rat) * secPerDay + todS P a)
+    (h : PassOutcome E tt n i a A G off0 UP m L' w') (hs : L'.v2 = false) (hs6 : L'.v6 ≠ none) :
+    ∃ a' kA', tt[(i + 1) % n]? = some a' ∧
+      A + nextGap P tt i = ((kA' : Int) : Rat) * secPerDay + todS P a' ∧
+      A ≤ E.abs L'.v7 ∧ E.abs L'.v7 ≤ A + ttError ∧ E.abs L'.v7 ≤ UP + m * E.J ∧
+      KnownSt E tt n ((i + 1) % n) a' (A + nextGap P tt i) G
+        (UP - A + E.C + (m + 1) * E.J - nextGap P tt i) L' w' :=
+  served_next E tt n i a A G g off0 UP m L' w' hlen hi hget ok kA hA h hs hs6
+
+/-- **the service guarantee for every number of passes** (S2 of the acceptance predicate, from the environment
+    assumptions instead of trace acceptance).  Without clock jumps (`J = 0`), with `2L + W + C ≤ _TT_ERROR` and
+    consecutive timetable entries at least `L + C` and at most `G < 12 h` apart: from the initial state of
+    `_maintask`, EACH of the first `N` passes – for every `N` and every behaviour of the environment – heads for
+    an instant `A` of the timetable and either recalculates exactly the blocks registered for its time of day
+    with a reading `r`, `A ≤ r ≤ A + 2L + W + C`, and advances the index by one, or is cut short by a reload
+    request (the next pass re-positions the index with ONE reading and recalculates everybody with it); it never
+    ends in a reset, never raises, and never awaits a sleep longer than `G`. -/
+theorem translated_cron_timing_service_every_pass [Inhabited T] [Inhabited DT] (E : TimedEnv P) (g G : Rat)
+    (hJ0 : E.J = 0) (hlam : lamServe E ≤ ttError) (hg : E.L + E.C ≤ g) (hG : G < secPerDay / 2)
+    (htt : ∀ w, TTok P (P.sortedUnion P.set24 (P.alarmKeys w)) g G) (N : Nat) (w : σ) :
+    allPasses E G (GoodPass E G) N (mtInit : MtLocals T DT) w :=
+  all_passes_good E g G hJ0 hlam hg hG htt N mtInit w ⟨rfl, le_refl _, Or.inl rfl⟩
+
+/-- … and from any state between two passes -/
+theorem translated_cron_timing_service_from_ready (E : TimedEnv P) (g G : Rat)
+    (hJ0 : E.J = 0) (hlam : lamServe E ≤ ttError) (hg : E.L + E.C ≤ g) (hG : G < secPerDay / 2)
+    (htt : ∀ w, TTok P (P.sortedUnion P.set24 (P.alarmKeys w)) g G) (N : Nat)
+    (L : MtLocals T DT) (w : σ) (h : Ready E g G L w) :
+    allPasses E G (GoodPass E G) N L w :=
+  all_passes_good E g G hJ0 hlam hg hG htt N L w h
+
+/-- **the longest distance in the timetable is one hour, because of the hourly `_SET24` entries**: in a strictly
+    sorted timetable that contains the 24 full hours consecutive entries (cyclically) are at most 3600 s apart –
+    so `G = 3600` in the theorems above, and no awaited sleep is longer than one hour -/
+theorem translated_cron_timing_hourly_gap (htod : ∀ t, 0 ≤ todS P t ∧ todS P t < secPerDay) (tt : List T)
+    (hs : SortedTT P tt) (hh : Hourly P tt) (i : Nat) (hi : i < tt.length) : nextGap P tt i ≤ 3600 :=
+  gap_le_hour htod tt hs hh i hi
+
+/- FULL STATEMENT (not proved): for every block registered with the service and every instant `t` that is not within
+   `lamServe` after a boundary of its configuration, the block's output at `t` is `pred cal cfg t` – i.e. hypothesis
+   S2 (`coverage`) of `accepted_trace_correct` derived from `TimedEnv` and the translated loop instead of trace
+   acceptance.  Missing: (a) the instantiation of `T`, `DT`, `abs`, `todS` with integer microseconds; (b) every
+   boundary of a registered block is an instant of the loop's timetable (from
+   `translated_cron_timedate_reconfig_registers_boundaries`, `…_timespan_reconfig_registers_alarm_times`,
+   `…_reload_rebuilds_timetable`, `pred_piecewise_constant`); (c) a world model in which `recalc blk r` sets the
+   block's output to `pred cal cfg r` (`translated_cron_timedate_recalc_is_pred`).  (b) + (c) are the hypothesis
+   `hconst` / the reading `pr (abs r)` below. -/
+/-- PARTIAL connection to the acceptance predicate: for a quantity `pr` of the wall clock that can change only at
+    instants of the timetable (`hconst`: constant from `A` up to the next instant `A + nextGap`), the value computed
+    from the reading of a SERVED pass is the right one at every instant from `UP + m·J` (at most `lamServe` after
+    `A` without jumps) until the next alarm instant -/
+theorem translated_cron_timing_value_right_until_next_alarm_partial (E : TimedEnv P) (tt : List T) (n i : Nat)
+    (a : T) (A G g off0 UP m : Rat) (L' : MtLocals T DT) (w' : σ) (hlen : tt.length = n) (hi : i < n)
+    (hget : tt[i]? = some a) (ok : TTok P tt g G) (kA : Int) (hA : A = (kA : Rat) * secPerDay + todS P a)
+    (h : PassOutcome E tt n i a A G off0 UP m L' w') (hs : L'.v2 = false) (hs6 : L'.v6 ≠ none)
+    (pr : Rat → Bool)
+    (hconst : ∀ x y, A ≤ x → x ≤ y → y < A + nextGap P tt i → pr x = pr y)
+    (t : Rat) (ht1 : UP + m * E.J ≤ t) (ht2 : t < A + nextGap P tt i) :
+    pr t = pr (E.abs L'.v7) := by
+  obtain ⟨_, _, _, _, h1, _, h3, _⟩ :=
+    served_next E tt n i a A G g off0 UP m L' w' hlen hi hget ok kA hA h hs hs6
+  exact (hconst (E.abs L'.v7) t h1 (by linarith) ht2).symm
+
+/-- what `wp` demands of an awaited sleep: it is positive and at most `M` (so `wp E G …` = no stall), and of an
+    exception: that it does not happen -/
+theorem translated_cron_timing_wp_bounds_sleeps (E : TimedEnv P) (M d : Rat) (Φ : MtLocals T DT → σ → Prop)
+    (w : σ) (k : σ → Res (MtLocals T DT) σ) (kq : Bool → σ → Res (MtLocals T DT) σ) (e : MExc)
+    (l : MtLocals T DT) :
+    (wp E M Φ (.sleep d w k) → 0 < d ∧ d ≤ M) ∧ (wp E M Φ (.waitQueue d w kq) → 0 < d ∧ d ≤ M) ∧
+    ¬ wp E M Φ (.raise e l w) := by
+  refine ⟨fun h => ?_, fun h => ?_, fun h => ?_⟩ <;> simp only [wp] at h
+  · exact ⟨h.1, h.2.1⟩
+  · exact ⟨h.1, h.2.1⟩
+
+end timing
+
+/-! ### the hypotheses are satisfiable (EdzedProofs/CronTimingDemo.lean)
+
+`Demo.demoE`: the world is the wall clock (rational seconds), a reading returns it, `time.sleep(d)` advances it by
+`d`, awaited sleeps return up to 1 ms late, no jumps; timetable 00:00 / 08:00 / 16:00 (`Demo.demo_ttok`). -/
+
+open Edzed.Cron.Demo in
+/-- the environment assumptions and the timetable assumptions of `…_service_every_pass` hold in the demo
+    environment: every pass of the translated loop, from its initial state at any clock value, is a `GoodPass` -/
+example (N : Nat) (w : Rat) : allPasses demoE 28800 (GoodPass demoE 28800) N (mtInit : MtLocals Tod Rat) w :=
+  translated_cron_timing_service_every_pass demoE 28800 28800 rfl
+    (by norm_num [lamServe, demoE, ttError]) (by norm_num [demoE]) (by norm_num [secPerDay])
+    (fun _ => demo_ttok) N w
+
+open Edzed.Cron.Demo in
+/-- a concrete positioned state (`Demo.demo_known`: heading for 08:00, last reading 05:33:20): the pass serves
+    08:00 with a reading at most 1 ms + … late, for every behaviour of the environment -/
+example : wp demoE 28800 (PassOutcome demoE demoTT 3 1 t08 28800 28800 (demoE.off (20000 + 1 / 2))
+      (28800 + 2 / 1000) 7) (mtStep demoP demoL (20000 + 1 / 2)) :=
+  translated_cron_timing_pass_serves_alarm demoE demoTT 3 1 t08 28800 28800 (1 / 1000) (28800 + 2 / 1000)
+    demoL (20000 + 1 / 2) demo_known 0 demo_A (by norm_num [secPerDay])
+    (by norm_num [demoE]) (by norm_num [demoE]) (by norm_num [demoE, secPerDay])
+
+open Edzed.Cron.Demo in
+/-- … and the hypotheses of `…_resync_pass` / `…_no_alarm_skipped` (a well-formed timetable) are those of
+    `Demo.demo_ttok`; the window hypothesis of `…_sleeptime_is_distance` holds for the reading 05:33:20 and 08:00 -/
+example : secondsUntil demoP t08 (demoP.timeOf (20000 : Rat)) = 28800 - 20000 :=
+  translated_cron_timing_sleeptime_is_distance demoE t08 (20000 : Rat) 28800 0 demo_A
+    (by norm_num [demoE, secPerDay]) (by norm_num [demoE, secPerDay])
+
+open Edzed.Cron.Demo in
+/-- the timetable of exactly the 24 full hours (times of day = `Fin 24`) is sorted and hourly: every gap ≤ 1 h -/
+example (i : Nat) (hi : i < (List.finRange 24).length) : nextGap hoursP (List.finRange 24) i ≤ 3600 :=
+  translated_cron_timing_hourly_gap hours_range (List.finRange 24) hours_sorted hours_hourly i hi
+
+open Edzed.Cron.Demo in
+/-- the 08:00 alarm of the demo timetable served with the reading 08:00:00.0005 (`Demo.demo_outcome`): a quantity
+    that changes at 08:00 and 16:00 only is right from 08:00:00.002 until 16:00 -/
+example (t : Rat) (h1 : 28800 + 2 / 1000 + 7 * demoE.J ≤ t) (h2 : t < 28800 + nextGap demoP demoTT 1) :
+    (fun x : Rat => decide (28800 ≤ x ∧ x < 57600)) t
+      = (fun x : Rat => decide (28800 ≤ x ∧ x < 57600)) (demoE.abs demoL'.v7) :=
+  translated_cron_timing_value_right_until_next_alarm_partial demoE demoTT 3 1 t08 28800 28800 28800 0
+    (28800 + 2 / 1000) 7 demoL' (28800 + 6 / 10000) rfl (by omega) rfl demo_ttok 0 demo_A demo_outcome rfl
+    (by simp [demoL']) _
+    (by
+      intro x y hx hxy hy
+      have e : nextGap demoP demoTT 1 = 28800 := by
+        simp [nextGap, demoTT, tod_demo, t16, t08]; norm_num
+      rw [e] at hy
+      have a1 : 28800 ≤ x ∧ x < 57600 := ⟨hx, by linarith⟩
+      have a2 : 28800 ≤ y ∧ y < 57600 := ⟨by linarith, by linarith⟩
+      show decide (28800 ≤ x ∧ x < 57600) = decide (28800 ≤ y ∧ y < 57600)
+      rw [decide_eq_true a1, decide_eq_true a2])
+    t h1 h2
+
+/-! ### the "sleeps for a day" defect (repaired by 5cd81d8) as a machine-checked counterexample -/
+
+/-- the midnight rule of `_maintask` BEFORE the repair: only "reading in hour 23, wake-up in hour 0" wraps -/
+def secondsUntilOld {σ T DT B : Type} (P : MtPrims σ T DT B) (wakeup nowt : T) : Rat :=
+  let s : Rat := secPerHour * (P.hour wakeup - P.hour nowt)
+    + secPerMin * (P.minute wakeup - P.minute nowt)
+    + (P.second wakeup - P.second nowt) + (P.microsecond wakeup - P.microsecond nowt) / 1000000
+  if P.hour nowt = 23 ∧ P.hour wakeup = 0 then s + secPerDay else s
+
+/-- times of day as (hour, minute, second, microsecond); nothing else matters here -/
+def hmsPrims : MtPrims Unit (Rat × Rat × Rat × Rat) Unit Unit where
+  dtnow w := ((), w)
+  timeOf _ := (0, 0, 0, 0)
+  set24 := []
+  alarmKeys _ := []
+  sortedUnion a _ := a
+  bisectLeft _ _ := 0
+  allClients _ := []
+  hasAlarm _ _ := false
+  clientsAt _ _ := []
+  recalc _ _ w := w
+  hour t := t.1
+  minute t := t.2.1
+  second t := t.2.2.1
+  microsecond t := t.2.2.2
+  blockingSleep _ w := w
+
+/-- an alarm at 23:59:59.9995 whose wake-up is read at 00:00:00.0001 (0.6 ms late, past midnight): the old rule
+    computes +86399.9994 s and would await `wait_for(…, 86399.9984)` – 24 times the one hour that
+    `translated_cron_timing_pass_serves_alarm` allows (`wp E G` with `G ≤ 1 h`); the repaired normalisation gives
+    −0.0006 s (late: serve at once) -/
+theorem translated_cron_timing_prefix_midnight_stall :
+    secondsUntilOld hmsPrims (23, 59, 59, 999500) (0, 0, 0, 100) = 863999994 / 10000 ∧
+    secondsUntil hmsPrims (23, 59, 59, 999500) (0, 0, 0, 100) = -(6 / 10000) ∧
+    (3600 : Rat) < secondsUntilOld hmsPrims (23, 59, 59, 999500) (0, 0, 0, 100) - ttOk := by
+  unfold secondsUntilOld secondsUntil hmsPrims secPerHour secPerMin secPerDay ttOk
+  norm_num
 
 end Edzed.TrTie
